@@ -1,0 +1,15 @@
+//go:build verif
+
+package updog
+
+import "go.etcd.io/bbolt"
+
+// VerifCommitHook, when set, is called right after every committed transaction of an index
+// writer with the database the transaction was committed to. Verification builds only.
+var VerifCommitHook func(site string, db *bbolt.DB)
+
+func verifPoint(site string, db *bbolt.DB) {
+	if VerifCommitHook != nil {
+		VerifCommitHook(site, db)
+	}
+}
